@@ -327,6 +327,12 @@ func c09Related(r *rand.Rand, sel, metric string) string {
 			ms = append([]string{c09Matcher(r.Intn(c09NumMatchers))}, ms...)
 		}
 	}
+	if r.Intn(8) == 0 {
+		// the metric given by a matcher on __name__ of any type (equal, regex, and the negative
+		// ones, which select every OTHER metric): optimizers that key on the name must tell them apart
+		nm := []string{`__name__="%s"`, `__name__=~"%s"`, `__name__!="%s"`, `__name__!~"%s"`, `__name__=~"%s|zz"`}[r.Intn(5)]
+		return "{" + strings.Join(append([]string{fmt.Sprintf(nm, metric)}, ms...), ",") + "}"
+	}
 	if len(ms) == 0 {
 		return metric
 	}
